@@ -130,6 +130,10 @@ Ltac prim :=
       let H := fresh "Hrv" in let h := fresh "h" in let t := fresh "t" in let er := fresh "er" in
       destruct (read_var_cases c c8 c32 bs) as [(h & t & H)|(er & H)]; rewrite H; cbn [bind];
       [pose proof (read_var_ok _ _ _ _ _ _ H)|exact I]
+  | |- context [read_len ?len ?bs] =>
+      let H := fresh "Hrl" in let h := fresh "h" in let t := fresh "t" in let er := fresh "er" in
+      destruct (read_len_cases len bs) as [(h & t & H)|(er & H)]; rewrite H; cbn [bind];
+      [pose proof (read_len_ok _ _ _ _ H)|exact I]
   | |- context [checked_sub_len ?a ?b] =>
       let H := fresh "Hcs" in let c := fresh "n" in let er := fresh "er" in
       destruct (checked_sub_len_cases a b) as [(c & H)|(er & H)]; rewrite H; cbn [bind]; [|exact I]
@@ -190,12 +194,12 @@ Proof.
   intros Hb. unfold dec_seq. prim.
   destruct (c =? 224).
   { prim. prim. destruct ((MAXCOUNT <? b0) || (b <? b0)); [exact I|].
-    destruct (b0 =? 0); [cbn; lia|]. prim. prim.
+    destruct (b0 =? 0); [prim; prim; cbn in *; lia|]. prim. prim.
     pose proof (array_loop_good (N.to_nat b0) n0 (lenN t2) (Some c0) t2 [] ltac:(lia)) as HL.
     destruct (array_loop self (N.to_nat b0) n0 (lenN t2) (Some c0) t2 []) as [[[l e2] r2]| | |]; cbn in *; auto. lia. }
   destruct (c =? 240).
   { prim. prim. destruct ((MAXCOUNT <? n1) || (n0 <? n1)); [exact I|].
-    destruct (n1 =? 0); [cbn; lia|]. prim. prim.
+    destruct (n1 =? 0); [prim; prim; cbn in *; lia|]. prim. prim.
     pose proof (array_loop_good (N.to_nat n1) n2 (lenN t2) (Some c0) t2 [] ltac:(lia)) as HL.
     destruct (array_loop self (N.to_nat n1) n2 (lenN t2) (Some c0) t2 []) as [[[l e2] r2]| | |]; cbn in *; auto. lia. }
   destruct (c =? 69); [cbn; lia|].
